@@ -198,12 +198,12 @@ def gen_plan(rng, tier="quick"):
         r2["data"]["seed"] = rng.randrange(10**6)
         if rng.random() < 0.5:
             r2["nf"], r2["nd"] = recipe["nf"], recipe["nd"]     # same grid, other contents
-            if rng.random() < 0.5:
+            if rng.random() < 0.6:
                 # same number of bins, other bin values (another model's frequencies / rotated directions)
                 fq = dict(r2.get("freq", {}))
                 fq["f0"] = round(float(fq.get("f0", 0.04)) * rng.choice([0.6, 0.8, 1.25, 1.6]), 4)
                 r2["freq"] = fq
-        if rng.random() < 0.5:
+        if rng.random() < 0.7:
             r2["aux_seed"] = recipe.get("data", {}).get("seed", 0)   # same sites: same winds, depths, positions
         plan["pair"] = r2
         if rng.random() < 0.35:
